@@ -13,9 +13,11 @@ from . import runsim  # noqa: F401  (sets sys.path to the topsim tree)
 
 
 def _as_int(v, what):
+    """exact: whole multiples of the unit must parse to whole numbers, not to
+    7.000000000000001 (a step count is compared with integer clocks)"""
     r = round(v)
-    if abs(v - r) > 1e-9:
-        raise ValueError(f"non-integral {what}: {v}")
+    if v != r:
+        raise ValueError(f"non-integral {what}: {v!r}")
     return int(r)
 
 
